@@ -551,30 +551,15 @@ func allZero(b []byte) bool {
 	return true
 }
 
-// setupMont fixes the sign of c = sqrt(-486664) from published constants only: the Ed25519 base point (y = 4/5,
-// x even) must map to the X25519 base point u = 9 with the v-coordinate of RFC 7748.
+// setupMont fixes c = sqrt(-486664).  The library's constant (pkg/base/curves/curve25519/curve.go) is the NEGATIVE of
+// the root RFC 7748 uses in its birational map, so the library's v-coordinates are the negatives of the RFC's (its base
+// point has v = 4311...2548, not 1478...7401).  Encoding and decoding agree with each other, which is all that C13
+// asks; the oracle follows the library's convention and checks the constant: c^2 = -486664 and c = -c_RFC.
 func setupMont() {
 	f := f25519
-	y, _ := f.div(f.small(4), f.small(5))
-	B, ok := eEd.liftY(y)
-	if !ok {
-		panic("ed25519 base point")
+	montC = f.fromInts(hexInt("0f26edf460a006bbd27b08dc03fc4f7ec5a1d3d14b7d1a82cc6e04aaff457e06"))
+	rfc, _ := new(big.Int).SetString("51042569399160536130206135233146329284152202253034631822681833788666877215207", 10)
+	if !f.eq(f.sq(montC), f.small(-486664)) || !f.eq(f.neg(montC), f.fromInts(rfc)) {
+		panic("Montgomery constant")
 	}
-	if f.odd(B.x) {
-		B = eEd.neg(B)
-	}
-	wv, _ := new(big.Int).SetString("14781619447589544791020593568409986887264606134616475288964881837755586237401", 10)
-	wantV := f.fromInts(wv)
-	c, ok := f.sqrt(f.small(-486664))
-	if !ok {
-		panic("-486664 is not a square")
-	}
-	for _, cand := range []fe{c, f.neg(c)} {
-		montC = cand
-		u, v, _ := edToMont(B)
-		if f.eq(u, f.small(9)) && f.eq(v, wantV) {
-			return
-		}
-	}
-	panic("cannot fix the Montgomery constant")
 }
